@@ -36,11 +36,34 @@ type Case struct {
 	// ViaConfig: the pool's schedule factory is what config decoding produces from the profile's config map (as in a
 	// real run: one decoded section, the factory called once per instance with rps-per-instance), not a constructor call.
 	ViaConfig bool `json:"profile_via_config"`
+	// StartupMs: length of a const startup profile (default 4 ms)
+	StartupMs int `json:"startup_ms,omitempty"`
 }
 
 var profOpts = sg.Opts{MaxDepth: 2, MaxChildren: 4, MaxLeafTok: 25, MinDur: time.Millisecond, MaxDur: 8 * time.Millisecond}
 
+// genGradual: instances are still being started (const startup over 20-50 ms) while a paced shared profile (one token
+// every few ms, started now) hands out tokens and a small ammo supply runs out: at that moment other instances hold an
+// ammo item while they wait for their token's time.
+func genGradual(t *rapid.T) Case {
+	c := Case{Startup: "const", Repeat: 3, AfterLast: "return"}
+	c.Instances = rapid.IntRange(2, 6).Draw(t, "instances")
+	c.StartupMs = rapid.IntRange(20, 50).Draw(t, "startupMs")
+	d := int64(rapid.IntRange(30, 80).Draw(t, "profileMs")) * int64(time.Millisecond)
+	tok := rapid.IntRange(8, 25).Draw(t, "tokens")
+	c.Profile = sg.Node{Kind: "const", From: (float64(tok) + 0.25) / (float64(d) / 1e9), DurNs: d}
+	c.PerInstance = rapid.IntRange(0, 3).Draw(t, "perInstance") == 0
+	c.Ammo = rapid.IntRange(1, c.Instances+4).Draw(t, "ammo")
+	c.Discard = rapid.Bool().Draw(t, "discard")
+	c.ShotUs = []int{rapid.SampledFrom([]int{0, 50, 500}).Draw(t, "shotUs")}
+	c.Queue = rapid.SampledFrom([]int{0, 1, 64}).Draw(t, "queue")
+	return c
+}
+
 func genCase(t *rapid.T) Case {
+	if rapid.IntRange(0, 3).Draw(t, "gradual") == 0 {
+		return genGradual(t)
+	}
 	c := Case{}
 	c.Instances = rapid.IntRange(1, 8).Draw(t, "instances")
 	c.Startup = rapid.SampledFrom([]string{"once", "once", "const", "istep"}).Draw(t, "startup")
@@ -87,6 +110,9 @@ func startup(c Case) core.Schedule {
 	switch c.Startup {
 	case "const":
 		d := 4 * time.Millisecond
+		if c.StartupMs > 0 {
+			d = time.Duration(c.StartupMs) * time.Millisecond
+		}
 		return schedule.NewConst((float64(n)+0.25)/d.Seconds(), d)
 	case "istep":
 		if n < 2 {
@@ -221,6 +247,8 @@ func once(c Case, o *vf.Obs, classify bool) error {
 		o.ClassIf(discarded > 0, "discards")
 		o.ClassIf(c.Profile.Kind == "composite", "composite_profile")
 		o.ClassIf(c.ViaConfig, "profile_via_config")
+		o.ClassIf(c.StartupMs > 0, "gradual_startup_paced_profile_small_ammo")
+		o.ClassIf(c.StartupMs > 0 && started < c.Instances, "ammo_ran_out_while_instances_were_still_being_started")
 		o.ClassIf(c.ViaConfig && c.PerInstance && c.Profile.Kind == "composite" && started >= 2, "per_instance_composite_via_config")
 		o.ClassIf(unfired > 0, "unfired_ammo")
 		o.ClassIf(started < c.Instances, "start_cut_short")
